@@ -1157,9 +1157,9 @@ def gen_pdhg_acc(r, exact):
     G = sl.functional_zoo(r, L.range, exact=exact)
     mode = r.choice(['primal', 'primal', 'dual', 'dual', 'none'])
     tau, sigma = sl.pick_step(r, exact), sl.pick_step(r, exact)
-    g = r.choice([0.5, 1.0, 2.0, 0.25] if exact else [0.5, 1.0, 0.3, 2.0, 0.7])
+    g = r.choice([0.5, 1.0, 2.0, 0.25, 0.0] if exact else [0.5, 1.0, 0.3, 2.0, 0.7, 0.0])
     sq_exact = False
-    if exact and mode != 'none' and r.random() < 0.6:
+    if exact and mode != 'none' and g != 0 and r.random() < 0.6:
         # 1 + 2 * gamma * step = 4: the square root of the FIRST iteration is exact (theta = 1/2)
         step, g = r.choice([(0.5, 3.0), (0.25, 6.0), (0.125, 12.0)])
         if mode == 'primal':
@@ -1211,6 +1211,33 @@ def family_pdhg_acc(ctx, r, exact, n, opaque=False):
                                   ('x', 'x_relax', 'y'))
     if st == 'ok':
         check_callback(ctx, p, n, log, full[0], 'pdhg(accelerated)')
+        # ONE-GO call with the DEFAULT x_relax / y (nothing passed) against the same call with
+        # x_relax = x.copy(), y = 0 passed explicitly (whose split runs were just checked), over the whole
+        # grid theta in {0, 1/2, 1} x acceleration in {none, gamma_primal, gamma_dual} x {0, > 0}
+        gpos = g if g else 0.5
+        for th in (0.0, 0.5, 1.0):
+            for acc_kw, aname in (({}, 'none'), ({'gamma_primal': 0.0}, 'primal=0'),
+                                  ({'gamma_primal': gpos}, 'primal>0'), ({'gamma_dual': 0.0}, 'dual=0'),
+                                  ({'gamma_dual': gpos}, 'dual>0')):
+                runs = []
+                for explicit in (False, True):
+                    x = unflat(L.domain, p['x0'])
+                    rec = Recorder()
+                    kw3 = dict(acc_kw, theta=th)
+                    if explicit:
+                        kw3.update(x_relax=x.copy(), y=L.range.zero())
+                    st_g, _ = guarded(pdhg, x, p['f'], p['g'], L, n, tau=p['tau'], sigma=p['sigma'],
+                                      callback=rec, **kw3)
+                    runs.append((st_g, rec.iterates, flat(x).copy()))
+                ctx.hit('pdhg_acc/one-go default x_relax,y/theta={}/gamma={}'.format(fs(th), aname))
+                (sa, la, xa), (sb, lb, xb) = runs
+                dd = (sa if sa != 'ok' else None) or (sb if sb != 'ok' else None) or \
+                    sl.arrays_differ(la, lb) or sl.arrays_differ([xa], [xb]) or \
+                    (n and sl.arrays_differ([la[-1]], [xa]))
+                if dd:
+                    viol(ctx, 'pdhg one-go with default x_relax / y vs x_relax = x.copy(), y = 0 passed: theta={} '
+                         'gamma_{}'.format(fs(th), aname), 'iterates / result differ: ' + str(dd), p, n=n,
+                         theta=th, acc=aname)
     sig = ('model', 'pdhg_acc', mode, p['opkind'], p['fk'], p['gk'], steps_class(exact), n)
     nt = st == 'ok' and nontrivial(log, p['x0'])
     nl = p['opkind'] == 'matrix*square'
@@ -1230,10 +1257,21 @@ def family_pdhg_acc(ctx, r, exact, n, opaque=False):
     # square roots are irrational except in the first iteration of the `sq_exact` cases
     # ... and the conjugate of an L1 term is the L-infinity ball projection, which ODL computes with
     # the radius lam * (1 - 1e-14) (same rule as `ball:` in solverlib.line_exact)
-    inexact = (mode != 'none' and not (p['sq_exact'] and n == 1)) or p['gk'] in ('l1', 'a_l1', 'l1_t')
+    inexact = (mode != 'none' and g != 0 and not (p['sq_exact'] and n == 1)) or p['gk'] in ('l1', 'a_l1', 'l1_t')
     cases = [Case(desc_of(p, n=n, mode=mode), sig if nt else None,
                   base + ' tau={} sigma={} x0={} n={}'.format(fs(p['tau']), fs(p['sigma']), fl(p['x0']), n),
                   st, log, extras(st, full, inexact))]
+    # the same model line against the real ONE-GO call with the defaults (x_relax, y not passed)
+    xd = unflat(L.domain, p['x0'])
+    recd = Recorder()
+    st_d, _ = guarded(pdhg, xd, p['f'], p['g'], L, n, tau=p['tau'], sigma=p['sigma'], callback=recd, **kw)
+    e_d = {'x': flat(xd).copy(), '_all_dyadic_or_tolerance': True} if st_d == 'ok' else {}
+    if inexact:
+        e_d['_inexact'] = True
+    cases.append(Case(desc_of(p, n=n, mode=mode, defaults=True), sig + ('defaults',) if nt else None,
+                      cases[0].line, st_d, recd.iterates, e_d))
+    ctx.hit('model/pdhg_acc/one-go defaults/theta={}/gamma={}'.format(
+        fs(theta), 'none' if mode == 'none' else ('0' if g == 0 else '>0')))
     ctx.hit('model/pdhg_acc/gamma=' + mode)
     ctx.hit('model/pdhg_acc/fresh')
     if not inexact and mode != 'none':
@@ -1919,6 +1957,159 @@ def family_refusals(ctx, r, exact, n, opaque=False):
     return []
 
 
+# ---------------------------------------------------------------------------
+# EXTRA ROUND: optimised vs reference over the FULL functional zoo in EVERY proximal slot
+
+ZOO_KINDS = ['zero', 'l1', 'l1_t', 'a_l1', 'groupl1', 'groupl1_t', 'a_groupl1', 'l2', 'l2_t', 'l2sq',
+             'l2sq_t', 'huber', 'kl', 'linf_ball', 'l2_ball', 'sepsum']
+ZOO_SLOTS = {'admm': ('f', 'g'), 'dpdc': ('f', 'g'), 'adupdates': ('g0', 'g1')}
+
+
+def full_zoo(r, space, kind):
+    """functional of the given kind on a POWER space (so that group-L1 and separable sums exist)"""
+    import odl
+    S = odl.solvers
+    n = size_of(space)
+    t = unflat(space, sl.dy_vec(r, n, 8, 4))
+    if kind == 'zero':
+        return S.ZeroFunctional(space)
+    if kind == 'l1':
+        return S.L1Norm(space)
+    if kind == 'l1_t':
+        return S.L1Norm(space).translated(t)
+    if kind == 'a_l1':
+        return r.choice([0.5, 0.25]) * S.L1Norm(space)
+    if kind == 'groupl1':
+        return S.GroupL1Norm(space)
+    if kind == 'groupl1_t':
+        return S.GroupL1Norm(space).translated(t)
+    if kind == 'a_groupl1':
+        return r.choice([0.5, 0.25]) * S.GroupL1Norm(space)
+    if kind == 'l2':
+        return S.L2Norm(space)
+    if kind == 'l2_t':
+        return S.L2Norm(space).translated(t)
+    if kind == 'l2sq':
+        return S.L2NormSquared(space)
+    if kind == 'l2sq_t':
+        return S.L2NormSquared(space).translated(t)
+    if kind == 'huber':
+        return S.Huber(space, r.choice([0.5, 1.0]))
+    if kind == 'kl':
+        return S.KullbackLeibler(space, prior=unflat(space, np.abs(sl.dy_vec(r, n, 8, 4)) + 0.5))
+    if kind == 'linf_ball':
+        return S.IndicatorLpUnitBall(space, np.inf)
+    if kind == 'l2_ball':
+        return S.IndicatorLpUnitBall(space, 2)
+    if kind == 'sepsum':
+        return S.SeparableSum(*[r.choice([S.L1Norm, S.L2NormSquared, S.L2Norm])(sp) for sp in space])
+    raise KeyError(kind)
+
+
+def power_operator_zoo(r):
+    """linear operator whose domain AND range are power spaces"""
+    import odl
+    k = r.randint(1, 3)
+    base = odl.rn(r.randint(1, 3)) if r.random() < 0.7 else odl.uniform_discr(0, 2, 2)
+    P = odl.ProductSpace(base, k)
+    c = r.random()
+    if c < 0.3:
+        return 'ps-identity', odl.IdentityOperator(P)
+    if c < 0.55:
+        return 'ps-scaling', odl.ScalingOperator(P, r.choice([-2.0, 0.5, 2.0]))
+    if isinstance(base, type(odl.rn(1))):
+        M = odl.MatrixOperator(sl.small_int_matrix(r, r.randint(1, 3), base.size))
+        return 'ps-diagonal(matrix)', odl.DiagonalOperator(*([M] * k))
+    return 'ps-diagonal(scaling)', odl.DiagonalOperator(*[odl.ScalingOperator(base, r.choice([0.5, 2.0, -1.0]))
+                                                           for _ in range(k)])
+
+
+def family_zoo_slots(ctx, r, exact, n, opaque=False):
+    """Optimised vs reference implementation (admm_linearized, doubleprox_dc, adupdates) with EVERY
+    functional kind of the property statement - L1, group-L1 (plain, scaled, translated), L2, squared
+    L2, Huber, KL, indicators of balls, separable sums, their translates - in EVERY proximal slot of
+    the pair, on power spaces, iterates compared per iteration.  `.../nonzero` is hit when the
+    optimised iterate after the first iteration is not zero (an in-place proximal that loses its input
+    returns zero)."""
+    pair = r.choice(['admm', 'dpdc', 'adupdates'])
+    n = min(max(n, 2), 4)
+    out_sig = None
+    for slot in ZOO_SLOTS[pair]:
+        for kind in ZOO_KINDS:
+            kindname, L = power_operator_zoo(r)
+            others = lambda sp: full_zoo(r, sp, r.choice(['l2sq', 'l1', 'zero', 'l2sq_t', 'groupl1']))
+            x0 = sl.dy_vec(r, size_of(L.domain), 24, 8) + 0.0625
+            if pair == 'admm':
+                f = full_zoo(r, L.domain, kind) if slot == 'f' else others(L.domain)
+                g = full_zoo(r, L.range, kind) if slot == 'g' else others(L.range)
+                if kind == 'kl':
+                    x0 = np.abs(x0) + 0.5
+                p = dict(solver='zoo_slots', L=L, f=f, g=g, tau=sl.pick_step(r, True) / 4,
+                         sigma=sl.pick_step(r, True), x0=x0)
+                st_o, log_o, _ = impl_admm(p, 'opt', n)
+                st_s, log_s, _ = impl_admm(p, 'simple', n)
+            elif pair == 'dpdc':
+                f = full_zoo(r, L.domain, kind) if slot == 'f' else others(L.domain)
+                g = full_zoo(r, L.range, kind) if slot == 'g' else others(L.range)
+                phi = full_zoo(r, L.domain, r.choice(['l2sq', 'l2sq_t', 'zero']))
+                y0 = sl.dy_vec(r, size_of(L.range), 24, 8) + 0.0625
+                if kind == 'kl':
+                    x0, y0 = np.abs(x0) + 0.5, np.abs(y0) + 0.5
+                p = dict(solver='zoo_slots', L=L, f=f, g=g, phi=phi, gamma=sl.pick_step(r, True) / 4,
+                         mu=sl.pick_step(r, True) / 4, x0=x0, y0=y0)
+                st_o, log_o, _, y_o = impl_dpdc(p, 'opt', n)
+                st_s, log_s, y_s = 'ok', [], None
+                for k in range(1, n + 1):
+                    st_k, _, x_k, y_s = impl_dpdc(p, 'simple', k)
+                    if st_k != 'ok':
+                        st_s = st_k
+                        break
+                    log_s.append(x_k)
+                if st_o == 'ok' and st_s == 'ok':
+                    log_o, log_s = list(log_o) + [y_o], list(log_s) + [y_s]
+            else:
+                kn2, L2 = power_operator_zoo(r)
+                import odl
+                L2 = odl.IdentityOperator(L.domain) if L2.domain != L.domain else L2
+                Ls = [L, L2]
+                j = 0 if slot == 'g0' else 1
+                Gs = [full_zoo(r, Ls[i].range, kind) if i == j else others(Ls[i].range) for i in range(2)]
+                if kind == 'kl':
+                    x0 = np.abs(x0) + 0.5
+                p = dict(solver='zoo_slots', Ls=Ls, Gs=Gs, stepsize=sl.pick_step(r, True),
+                         inner=[sl.pick_step(r, True) / 4, sl.pick_step(r, True) / 4], x0=x0, m=2)
+                st_o, log_o, _ = impl_adupdates(p, 'opt', n, 'outer')
+                st_s, log_s = 'ok', []
+                for k in range(1, n + 1):
+                    st_k, _, x_k = impl_adupdates(p, 'simple', k)
+                    if st_k != 'ok':
+                        st_s = st_k
+                        break
+                    log_s.append(x_k)
+            tag = 'zoo_slots/{}/{}/{}'.format(pair, slot, kind)
+            ctx.hit(tag)
+            desc = dict(solver='zoo_slots', pair=pair, slot=slot, kind=kind, opkind=kindname,
+                        x0=[float(v) for v in x0], cseed=r.cseed, exact=exact, opaque=opaque, n=n)
+            key = 'optimised vs reference {} slot={} functional={}'.format(pair, slot, kind)
+            if err_kind(st_o) != err_kind(st_s):
+                ctx.violation(key, 'outcomes differ: optimised {} / reference {}'.format(st_o, st_s), desc)
+            elif st_o != 'ok':
+                ctx.err(err_kind(st_o))
+                ctx.hit(tag + '/both-raise')
+            else:
+                if all(sl.finite(v) for v in list(log_o) + list(log_s)):
+                    d = sl.arrays_differ(log_o, log_s)
+                    if d:
+                        ctx.violation(key, 'iterates differ ({}): {}'.format(kindname, d), desc)
+                    if np.any(np.asarray(log_o[0]) != 0):
+                        ctx.hit(tag + '/nonzero')
+                    out_sig = ('oracle', 'zoo_slots', pair, kindname, n)
+                else:
+                    ctx.hit(tag + '/non-finite (skipped)')
+    ctx.case(out_sig)
+    return []
+
+
 FAMILIES = {
     'admm': family_admm,
     'adupdates': family_adupdates,
@@ -1941,6 +2132,7 @@ FAMILIES = {
     'gauss_newton': family_gauss_newton,
     'adam': family_adam,
     'refusals': family_refusals,
+    'zoo_slots': family_zoo_slots,
 }
 EXPECTED_BRANCHES = [
     'model/admm/opt', 'model/admm/simple', 'model/adupdates/inner', 'model/adupdates/outer',
@@ -1983,7 +2175,25 @@ EXPECTED_BRANCHES = [
     'oracle/adam/steps', 'oracle/adam/stopped-by-tol', 'oracle/pdhg default steps/both-default',
     'oracle/pdhg default steps/tau-given', 'oracle/pdhg default steps/sigma-given',
     'oracle/landweber default omega',
+    # extra round (seeded C11-51 / C11-52)
+    'pdhg_acc/one-go default x_relax,y/theta=0/gamma=none',
+    'pdhg_acc/one-go default x_relax,y/theta=0/gamma=primal=0',
+    'pdhg_acc/one-go default x_relax,y/theta=0/gamma=primal>0',
+    'pdhg_acc/one-go default x_relax,y/theta=0/gamma=dual=0',
+    'pdhg_acc/one-go default x_relax,y/theta=0/gamma=dual>0',
+    'pdhg_acc/one-go default x_relax,y/theta=1/2/gamma=none',
+    'pdhg_acc/one-go default x_relax,y/theta=1/2/gamma=primal=0',
+    'pdhg_acc/one-go default x_relax,y/theta=1/2/gamma=primal>0',
+    'pdhg_acc/one-go default x_relax,y/theta=1/2/gamma=dual=0',
+    'pdhg_acc/one-go default x_relax,y/theta=1/2/gamma=dual>0',
+    'pdhg_acc/one-go default x_relax,y/theta=1/gamma=none',
+    'pdhg_acc/one-go default x_relax,y/theta=1/gamma=primal=0',
+    'pdhg_acc/one-go default x_relax,y/theta=1/gamma=primal>0',
+    'pdhg_acc/one-go default x_relax,y/theta=1/gamma=dual=0',
+    'pdhg_acc/one-go default x_relax,y/theta=1/gamma=dual>0',
 ]
+EXPECTED_BRANCHES += ['zoo_slots/{}/{}/{}/nonzero'.format(pair, slot, kind)
+                      for pair in sorted(ZOO_SLOTS) for slot in ZOO_SLOTS[pair] for kind in ZOO_KINDS]
 OPAQUE_FAMILIES = ('admm', 'adupdates', 'dpdc', 'proxgrad', 'pdhg')
 
 
